@@ -2,7 +2,8 @@
 
 case kinds
   "graph"  {"g": G, "alts": [{"g": G', "same_ids": bool, "amap": "keep"|"rewrite"}], "others": [H, ...]}
-           G = {"nodes": [[id, attrs], ...], "edges": [[u, v, attrs], ...]}  (insertion order = networkx order)
+           G = {"nodes": [[id, attrs], ...], "edges": [[u, v, attrs], ...]}  (insertion order = networkx order);
+               "directed": true makes it a networkx.DiGraph whose edges are the arcs u -> v (model: coq/model/C08_Digraph.v)
            alts   = other presentations of the SAME abstract graph (re-inserted, possibly renumbered)
            others = different graphs (mutants) used for the soundness clause
   "batch"  {"graphs": [G, ...]}      soundness over a whole family (oracle only)
@@ -24,7 +25,7 @@ from ..tok import S
 
 PID = "C08"
 COQ_HEADER = ("From Coq Require Import List NArith ZArith.\nImport ListNotations.\n"
-              "From SK Require Import lib.Tok lib.LGraph model.C08_Model.\n")
+              "From SK Require Import lib.Tok lib.LGraph model.C08_Model model.C08_Digraph.\n")
 SHARD = 60
 BATCH_MODEL_MAX = 60
 BACKENDS = ["generic", "wl", "morgan", "nauty"]
@@ -38,7 +39,9 @@ RULE = ("labelled graphs presented with several node numberings / insertion orde
 EXHAUSTIVE = {"quick": False, "thorough": False}
 EXPLANATION = ("Exhaustive: every isomorphism class of graphs with <= 3 nodes (quick) / <= 4 nodes (thorough) over 2 elements x hcount{0,1} x "
                "bond orders {absent,1,2}, each re-inserted and renumbered; whole-family soundness batches (all classes with 3 and 4 nodes). "
-               "Seeded: random graphs <= 9 nodes, symmetric families (cycles, K_mn, cube, Petersen, mixed-order skeletons), rule pairs.")
+               "Seeded: random graphs <= 9 nodes, symmetric families (cycles, K_mn, cube, Petersen, mixed-order skeletons), rule pairs. "
+               "Digraphs (networkx.DiGraph): every class with <= 3 nodes over 2 elements, mirror pairs / directed cycles / antiparallel arcs / "
+               "tournaments, seeded random digraphs <= 6 nodes, whole families of arc sets on three labelled atoms.")
 TRUSTED_BASE = [
     "Coq 8.16.1 kernel + vm_compute (no native_compute)",
     "hand-written model coq/model/C08_Model.v tied to synkit/Graph/canon_graph.py, Graph/Canon/{canon_graph,nauty,canon_algs}.py, "
@@ -46,7 +49,8 @@ TRUSTED_BASE = [
     "_refine call, serialisation strings, equality pattern of the digests, wrapper equality verdicts)",
     "harness encoder harness/props/C08.py (graph -> Gallina literal: element strings as code points, orders in half-units, "
     "WL colours / Morgan labels shipped as order-preserving ranks)",
-    "networkx Graph semantics (one attribute dict per unordered pair, relabel_nodes); CPython str/tuple ordering, repr of int/float/bool/str",
+    "networkx Graph / DiGraph semantics (one attribute dict per unordered pair resp. per arc, neighbors = successors and degree = in + out "
+    "for a DiGraph, relabel_nodes); CPython str/tuple ordering, repr of int/float/bool/str",
     "SHA-256 truncated to 128 bits does not collide on the strings compared: explicit premise of C08_signature_sound_* and "
     "C08_value_objects_*; monitored on every run (equality pattern of the digests = equality pattern of the model's strings)",
 ]
@@ -55,7 +59,9 @@ ASSUMPTIONS = ["node ids are non-negative ints; element symbols are ASCII letter
                "bond orders are half-integer floats or, in ITS / reaction-centre graphs, (before, after) pairs of them - one kind per graph "
                "(the exact back-end cannot compare a float with a tuple); standard_order a half-integer float; a missing "
                "standard_order is a covered value of its own (the signature prints 0 vs 0.0, the nauty label '' vs '0.0')",
-               "undirected simple graphs without self-loops (networkx.Graph): premise wf of the theorems"]
+               "undirected simple graphs without self-loops (networkx.Graph): premise wf of the theorems; or digraphs without self-loops "
+               "(networkx.DiGraph, at most one arc per ordered pair, antiparallel arcs allowed): premise dwf of the C08_digraph_* theorems; "
+               "multigraphs are outside the property (not examined)"]
 TESTED_NOT_PROVED = ["history / provenance independence: in the model a graph IS its node list and edge list (no graph-level attributes, no object "
                      "identity, no canonicaliser state), so the modelled functions cannot look at anything else by construction; that the "
                      "implementation does not either is checked by the oracle on every graph case (inputs derived from earlier outputs: "
@@ -87,7 +93,7 @@ def _half(x):
 
 def _nx(g):
     import networkx as nx
-    G = nx.Graph()
+    G = nx.DiGraph() if g.get("directed") else nx.Graph()
     for n, a in g["nodes"]:
         G.add_node(n, **a)
     for u, v, a in g["edges"]:
@@ -116,10 +122,21 @@ def _ekey(a):
 def _views(G, nf, ef):
     nodes = {n: nf(d) for n, d in G.nodes(data=True)}
     adj = {n: {} for n in nodes}
+    if G.is_directed():
+        # a pair of nodes joined in either direction: (value of the arc u -> v or None, value of the arc v -> u or None)
+        for u, v, d in G.edges(data=True):
+            back = ("arc", ef(G[v][u])) if G.has_edge(v, u) else None
+            adj[u][v] = (("arc", ef(d)), back)
+            adj[v][u] = (back, ("arc", ef(d)))
+        return nodes, adj
     for u, v, d in G.edges(data=True):
         adj[u][v] = ef(d)
         adj[v][u] = ef(d)
     return nodes, adj
+
+
+def _ends(G, u, v):
+    return (u, v) if G.is_directed() else (min(u, v), max(u, v))
 
 
 def _iso(A, B):
@@ -166,6 +183,16 @@ def _cov(G):
     return _views(G, _nkey, _ekey)
 
 
+def _nkey_p(a):
+    """Presence-sensitive node value: an attribute that is absent is not the attribute with its default value (the exact
+    back-end tells them apart; the signature prints the default) - used where the property speaks of ISOMORPHIC graphs."""
+    return tuple(a.get(k, ("absent",)) for k in NODE_KEYS)
+
+
+def _cov_p(G):
+    return _views(G, _nkey_p, _ekey)
+
+
 def _full(G, drop=()):
     def nf(d):
         return tuple(sorted((k, repr(v)) for k, v in d.items() if k not in drop))
@@ -175,13 +202,13 @@ def _full(G, drop=()):
 def _abstract(G, drop=()):
     """The graph as a mathematical object (independent of insertion order / edge orientation)."""
     return (sorted((n, sorted((k, repr(v)) for k, v in d.items() if k not in drop)) for n, d in G.nodes(data=True)),
-            sorted((min(u, v), max(u, v), sorted((k, repr(x)) for k, x in d.items())) for u, v, d in G.edges(data=True)))
+            sorted(_ends(G, u, v) + (sorted((k, repr(x)) for k, x in d.items()),) for u, v, d in G.edges(data=True)))
 
 
 def _abstract_cov(G):
     """The graph on the attributes the signature covers."""
     return (sorted((n, _nkey(d)) for n, d in G.nodes(data=True)),
-            sorted((min(u, v), max(u, v), _ekey(d)) for u, v, d in G.edges(data=True)))
+            sorted(_ends(G, u, v) + (_ekey(d),) for u, v, d in G.edges(data=True)))
 
 
 def _n_aut_gt1_or_tied(g):
@@ -196,9 +223,16 @@ def _canoniser(be):
     return GraphCanonicaliser(backend=be)
 
 
+def _quiet():
+    # networkx >= 3.5 announces on every call that its WL hashes of DIRECTED graphs changed with that release
+    import warnings
+    warnings.filterwarnings("ignore", message="The hashes produced for directed graphs")
+
+
 def worker_init():
     import logging
     logging.disable(logging.CRITICAL)
+    _quiet()
 
 
 # ------------------------------------------------------------------ implementation adapter
@@ -211,7 +245,7 @@ def _cg_obs(cg):
     edges = []
     for u, v, d in cg.edges(data=True):
         o = d["order"]
-        edges.append([min(u, v), max(u, v), _half(o[0] if isinstance(o, tuple) else o),
+        edges.append(list(_ends(cg, u, v)) + [_half(o[0] if isinstance(o, tuple) else o),
                       ([_half(d["standard_order"])] if "standard_order" in d else []),
                       ([_half(o[1])] if isinstance(o, tuple) else [])])
     return [S(nodes), S(edges)]
@@ -308,9 +342,10 @@ def in_model_domain(g):
         if len(ids) != len(g["nodes"]):
             return False
         for u, v, a in g["edges"]:
-            if u == v or u not in ids or v not in ids or frozenset((u, v)) in seen:
+            pair = (u, v) if g.get("directed") else frozenset((u, v))
+            if u == v or u not in ids or v not in ids or pair in seen:
                 return False
-            seen.add(frozenset((u, v)))
+            seen.add(pair)
             if set(a) - {"order", "standard_order"} or "order" not in a:
                 return False
             o = a["order"]
@@ -334,10 +369,11 @@ def _pattern(xs):
 
 
 def impl(case):
+    _quiet()
     if case["kind"] == "batch":
         Gs = [_nx(g) for g in case["graphs"]]
         return [_pattern([_canoniser(be).canonical_signature(G) for G in Gs]) for be in ("generic", "nauty")]
-    if case["kind"] != "graph":
+    if case["kind"] != "graph" or case.get("oracle_only"):
         return None
     out = []
     sigs = []
@@ -377,7 +413,31 @@ def impl(case):
         for row, H in zip(vo, hs):
             row.append(bool(sg0 == SynGraph(H, c)))
             row.append(bool(cg0 == CanonicalGraph(H, c)))
-    return [[[[[[out, pat], vo], _rule_vo(case)]] + _graph_sig_obs(case), _order_only_perms(case)], _orbits_obs(case)]
+    obs = [[[[[[out, pat], vo], _rule_vo(case)]] + _graph_sig_obs(case), _order_only_perms(case)], _orbits_obs(case)]
+    if case["g"].get("directed"):
+        return obs
+    return [obs, _max_depth_obs(case)]
+
+
+def _mds(case):
+    # 0, 1, 2 abandon the search early (cheap); max_depth = number of nodes repeats the whole search (the guard must never
+    # fire): only on graphs where that is cheap
+    n = len(case["g"]["nodes"])
+    return [0, 1, 2] + ([n] if n <= 6 else [])
+
+
+def _max_depth_obs(case):
+    """canonical_form(G, return_perm=True, max_depth=md) of the base presentation: [] for RuntimeError (search abandoned
+    before any leaf), else [[perm, early_stop]]."""
+    c = _canoniser("nauty")
+    out = []
+    for md in _mds(case):
+        try:
+            res = c.nauty.canonical_form(_nx(case["g"]), return_perm=True, max_depth=md)
+            out.append([[list(res[1]), bool(res[2])]])
+        except RuntimeError:
+            out.append([])
+    return out
 
 
 def _graph_sig_obs(case):
@@ -416,7 +476,7 @@ RULE_VO_MAX_NODES = 6
 
 def _rule_hs(case):
     """The graphs against which SynRule.__eq__ is exercised: one renumbered presentation and one mutant (small graphs only)."""
-    if len(case["g"]["nodes"]) > RULE_VO_MAX_NODES:
+    if len(case["g"]["nodes"]) > RULE_VO_MAX_NODES or case["g"].get("directed"):
         return []
     ren = [a["g"] for a in case.get("alts", []) if not a["same_ids"]][:1]
     return ren + list(case.get("others", []))[:1]
@@ -474,23 +534,33 @@ def _cranks(r, g):
 
 
 def coq_case(case):
+    _quiet()
     if case["kind"] == "batch":
         # big whole-family batches stay oracle-only: a multi-MB Gallina literal costs minutes to parse and adds
         # nothing to what the per-graph cases of the same classes already compare
         if len(case["graphs"]) > BATCH_MODEL_MAX or not all(in_model_domain(g) for g in case["graphs"]):
             return None
-        return "run_batch %s" % clist([_cgraph(g) for g in case["graphs"]])
-    if case["kind"] != "graph":
+        kinds = {bool(g.get("directed")) for g in case["graphs"]}
+        if len(kinds) > 1:
+            return None
+        return "%s %s" % ("drun_batch" if kinds == {True} else "run_batch", clist([_cgraph(g) for g in case["graphs"]]))
+    if case["kind"] != "graph" or case.get("oracle_only"):
         return None
     ps = _present(case)
     if not all(in_model_domain(p) for p in ps) or not all(in_model_domain(h) for h in case.get("others", [])):
+        return None
+    kinds = {bool(x.get("directed")) for x in ps + list(case.get("others", []))}
+    if len(kinds) > 1:
         return None
     items = []
     for p in ps:
         G = _nx(p)
         items.append("(%s, %s, %s)" % (_cgraph(p), _cranks(_wl_ranks(G), p), _cranks(_morgan_ranks(G), p)))
-    return "run_case6 %s %s %s" % (clist(items), clist([_cgraph(h) for h in case.get("others", [])]),
-                                   clist([_cgraph(h) for h in _rule_hs(case)]))
+    if kinds == {True}:
+        # networkx.DiGraph inputs: the directed model (coq/model/C08_Digraph.v), same observable shape
+        return "drun_case %s %s" % (clist(items), clist([_cgraph(h) for h in case.get("others", [])]))
+    return "run_case7 %s %s %s %s" % (clist(items), clist([_cgraph(h) for h in case.get("others", [])]),
+                                      clist([_cgraph(h) for h in _rule_hs(case)]), clist(["%d%%nat" % m for m in _mds(case)]))
 
 
 # ------------------------------------------------------------------ property oracle
@@ -558,6 +628,7 @@ def _oracle_graph(case):
         for h in case.get("others", []):
             H = _nx(h)
             iso = _iso(_cov(P0), _cov(H)) is not None
+            iso_p = iso and _iso(_cov_p(P0), _cov_p(H)) is not None
             sh = c.canonical_signature(H)
             if be == "nauty":
                 gsh = c.nauty.graph_signature(H)
@@ -570,7 +641,7 @@ def _oracle_graph(case):
                 fails.append(_fail("value-objects", "SynGraph equal for non-isomorphic graphs (%s) A=%r B=%r" % (be, p0, h)))
             if (CanonicalGraph(H, c) == CanonicalGraph(P0, c)) and not iso:
                 fails.append(_fail("value-objects", "CanonicalGraph equal for non-isomorphic graphs (%s) A=%r B=%r" % (be, p0, h)))
-            if be == "nauty" and iso and sh != s0:
+            if be == "nauty" and iso_p and sh != s0:
                 fails.append(_fail("nauty-invariant", "isomorphic graphs get different signatures; A=%r B=%r" % (p0, h)))
         if len(fails) >= 4:
             break
@@ -723,7 +794,7 @@ def _oracle_surface(case, fails):
 def _fresh(G):
     """The same nodes, edges and attributes built from scratch: no graph-level attributes, no provenance."""
     import networkx as nx
-    H = nx.Graph()
+    H = nx.DiGraph() if G.is_directed() else nx.Graph()
     for n, d in G.nodes(data=True):
         H.add_node(n, **dict(d))
     for u, v, d in G.edges(data=True):
@@ -828,9 +899,12 @@ def _oracle_history(case, fails):
         D2 = _nx(p0)
         c.canonical_signature(D2)
         if dn:
+            had = "charge" in D2.nodes[dn[0]]
             D2.nodes[dn[0]]["charge"] = D2.nodes[dn[0]].get("charge", 0) + 1
             c.canonical_signature(D2)
             D2.nodes[dn[0]]["charge"] = D2.nodes[dn[0]].get("charge", 0) - 1
+            if not had:
+                del D2.nodes[dn[0]]["charge"]          # undo means: absent again, not present with the default
             if c.canonical_signature(D2) != sig_a:
                 fails.append(_fail("history/%s" % be, "edit and undo in place gives another signature than before; input %r" % (p0,)))
         # arbitrary graph-level attributes, including ones that look like internal tags
@@ -941,6 +1015,7 @@ def _oracle_rule(case):
 
 
 def oracle(case):
+    _quiet()
     k = case["kind"]
     if k == "graph":
         return _oracle_graph(case)
@@ -956,7 +1031,7 @@ def _all_mutants(g):
     out = []
 
     def cp():
-        return {"nodes": [[n, dict(a)] for n, a in g["nodes"]], "edges": [[u, v, dict(a)] for u, v, a in g["edges"]]}
+        return _copy(g)
     for i, (n, a) in enumerate(g["nodes"]):
         for k, v in (("element", "O" if a.get("element") != "O" else "N"), ("charge", a.get("charge", 0) + 1),
                      ("hcount", a.get("hcount", 0) + 1), ("aromatic", not a.get("aromatic", False))):
@@ -974,6 +1049,15 @@ def _all_mutants(g):
         h = cp()
         del h["edges"][i]
         out.append(h)
+        if g.get("directed"):
+            have = {(a, b) for a, b, _ in g["edges"]}
+            if (v, u) not in have:
+                h = cp()
+                h["edges"][i][0], h["edges"][i][1] = v, u
+                out.append(h)
+                h = cp()
+                h["edges"].append([v, u, dict(a)])
+                out.append(h)
     return out
 
 
@@ -1015,7 +1099,7 @@ def distribution(cases, obss):
         if _n_aut_gt1_or_tied(c["g"]):
             tied += 1
         try:
-            for row in o[0][0][0][0][0][0]:
+            for row in (o if c["g"].get("directed") else o[0])[0][0][0][0][0][0]:
                 refines += len(row[3][2])
                 leaves += len(row[3][3])
                 if len(row[3][3]) > 1:
@@ -1026,7 +1110,15 @@ def distribution(cases, obss):
     for c in cases:
         k = c.get("sub", c["kind"])
         subs[k] = subs.get(k, 0) + 1
-    return dict(populations=subs, nodes={str(k): v for k, v in sorted(sizes.items())}, edges={str(k): v for k, v in sorted(edges.items())},
+    md = {"abandoned_before_any_leaf": 0, "leaf_and_early_stop": 0, "complete": 0}
+    for c, o in zip(cases, obss):
+        if c["kind"] == "graph" and not c["g"].get("directed") and isinstance(o, list) and len(o) == 2:
+            for r in o[1]:
+                md["abandoned_before_any_leaf" if not r else ("leaf_and_early_stop" if r[0][1] else "complete")] += 1
+    directed = sum(1 for c in cases if c["kind"] == "graph" and c["g"].get("directed"))
+    antipar = sum(1 for c in cases if c["kind"] == "graph" and c["g"].get("directed")
+                  and any((v, u) in {(a, b) for a, b, _ in c["g"]["edges"]} for u, v, _ in c["g"]["edges"]))
+    return dict(max_depth_outcomes=md, directed_graph_cases=directed, directed_with_antiparallel_arcs=antipar, populations=subs, nodes={str(k): v for k, v in sorted(sizes.items())}, edges={str(k): v for k, v in sorted(edges.items())},
                 alt_presentations=kinds_alt, tied_node_keys=tied, presentations_with_nontrivial_automorphism=symmetric,
                 refine_calls_compared=refines, minimal_leaves_compared=leaves)
 
@@ -1052,12 +1144,23 @@ def _norm_graph(g, amap=True):
     return {"nodes": nodes, "edges": edges}
 
 
+def _copy(g):
+    h = {"nodes": [[n, dict(a)] for n, a in g["nodes"]], "edges": [[u, v, dict(a)] for u, v, a in g["edges"]]}
+    if g.get("directed"):
+        h["directed"] = True
+    return h
+
+
 def _reinsert(g, rng):
     ns = list(g["nodes"])
-    es = [([u, v, dict(a)] if rng.random() < 0.5 else [v, u, dict(a)]) for u, v, a in g["edges"]]
+    # an undirected edge may be stored either way round; an arc of a digraph may not
+    es = [([u, v, dict(a)] if (g.get("directed") or rng.random() < 0.5) else [v, u, dict(a)]) for u, v, a in g["edges"]]
     rng.shuffle(ns)
     rng.shuffle(es)
-    return {"nodes": [[n, dict(a)] for n, a in ns], "edges": es}
+    h = {"nodes": [[n, dict(a)] for n, a in ns], "edges": es}
+    if g.get("directed"):
+        h["directed"] = True
+    return h
 
 
 def _renumber(g, rng, amap):
@@ -1071,13 +1174,37 @@ def _renumber(g, rng, amap):
         if amap == "rewrite" and "atom_map" in a:
             a["atom_map"] = m[n]
         nodes.append([m[n], a])
-    return {"nodes": nodes, "edges": [[m[u], m[v], dict(a)] for u, v, a in g["edges"]]}
+    h = {"nodes": nodes, "edges": [[m[u], m[v], dict(a)] for u, v, a in g["edges"]]}
+    if g.get("directed"):
+        h["directed"] = True
+    return h
 
 
 def _mutant(g, rng):
     """A graph near g that is usually NOT isomorphic to it on the covered attributes."""
-    h = {"nodes": [[n, dict(a)] for n, a in g["nodes"]], "edges": [[u, v, dict(a)] for u, v, a in g["edges"]]}
+    h = _copy(g)
     ids = [n for n, _ in h["nodes"]]
+    if g.get("directed") and h["edges"] and rng.random() < 0.6:
+        # digraphs: the direction of an arc is content - turn one arc / every arc round, add or drop the opposite arc
+        have = {(u, v) for u, v, _ in h["edges"]}
+        z = rng.random()
+        one_way = [e for e in h["edges"] if (e[1], e[0]) not in have]
+        both = [e for e in h["edges"] if (e[1], e[0]) in have]
+        if z < 0.45 and one_way:
+            e = rng.choice(one_way)
+            e[0], e[1] = e[1], e[0]
+        elif z < 0.6:
+            for e in h["edges"]:
+                e[0], e[1] = e[1], e[0]
+        elif z < 0.8 and one_way:
+            e = rng.choice(one_way)
+            h["edges"].append([e[1], e[0], dict(e[2])])
+        elif both:
+            h["edges"].remove(rng.choice(both))
+        else:
+            e = rng.choice(h["edges"])
+            e[0], e[1] = e[1], e[0]
+        return h
     z = rng.random()
     tup = [e for e in h["edges"] if isinstance(e[2].get("order"), (list, tuple))]
     if tup and rng.random() < 0.5:
@@ -1106,8 +1233,8 @@ def _mutant(g, rng):
     elif z < 0.6 and len(ids) >= 3 and h["edges"]:
         # move one endpoint of an edge
         e = rng.choice(h["edges"])
-        have = {frozenset((u, v)) for u, v, _ in h["edges"]}
-        cands = [w for w in ids if w not in (e[0], e[1]) and frozenset((e[0], w)) not in have]
+        have = {((u, v) if g.get("directed") else frozenset((u, v))) for u, v, _ in h["edges"]}
+        cands = [w for w in ids if w not in (e[0], e[1]) and ((e[0], w) if g.get("directed") else frozenset((e[0], w))) not in have]
         if cands:
             e[1] = rng.choice(cands)
         else:
@@ -1247,7 +1374,53 @@ def _degenerate_cases(rng):
         ("ids-10-11-9", {"nodes": [[10, _node()], [9, _node()], [11, _node()], [100, _node()]],
                          "edges": [[10, 9, {"order": 1.0}], [9, 11, {"order": 2.0}], [11, 100, {"order": 1.0}]]}),
     ]
+    # eight equal atoms whose search-tree leaves lie at different depths: canonical_form(max_depth=2) returns a leaf AND early_stop
+    gs.append(("uneven-leaf-depth", {"nodes": [[i, _node()] for i in range(1, 9)],
+                                     "edges": [[u, v, {"order": 1.0}] for u, v in ((1, 4), (1, 8), (2, 4), (2, 5), (3, 6), (3, 7), (4, 6),
+                                                                                   (4, 8), (5, 6), (6, 7))]}))
     return [_graph_case("degenerate", g, rng, nalts=2, nothers=(1 if g["nodes"] else 0), name="degenerate/" + nm) for nm, g in gs]
+
+
+def _missing_attr_cases(rng):
+    """Node attributes absent on SOME nodes only (graphs read from GML or built by hand; SynKit's own builders always set
+    all four).  Outside the model domain (the model's nodes carry all four attributes): oracle only.  The signature prints
+    the default for an absent attribute; the exact back-end keeps absent and default apart - so 'isomorphic' is judged
+    presence-sensitively for the invariance clause and on the printed values for the soundness clause."""
+    def strip(g, drops):
+        h = _copy(g)
+        for i, k in drops:
+            h["nodes"][i][1].pop(k, None)
+        return h
+    base3 = {"nodes": [[1, _node("C", 0, False, 1)], [2, _node("C", 0, False, 1)], [3, _node("O", 0, False, 0)]],
+             "edges": [[1, 2, {"order": 1.0}], [2, 3, {"order": 1.0}]]}
+    ring = {"nodes": [[i, _node("C", 0, False, 1)] for i in (4, 9, 2, 7)],
+            "edges": [[4, 9, {"order": 1.0}], [9, 2, {"order": 2.0}], [2, 7, {"order": 1.0}], [7, 4, {"order": 2.0}]]}
+    star = {"nodes": [[1, _node("N", 1, False, 0)]] + [[i, _node("C", 0, False, 3)] for i in (2, 3, 4, 5)],
+            "edges": [[1, i, {"order": 1.0}] for i in (2, 3, 4, 5)]}
+    spec = [
+        ("charge-absent-on-one", base3, [(1, "charge")]), ("hcount-absent-on-one", base3, [(0, "hcount")]),
+        ("aromatic-absent-on-one", base3, [(0, "aromatic")]), ("element-absent-on-one", base3, [(2, "element")]),
+        ("charge-absent-on-all", base3, [(0, "charge"), (1, "charge"), (2, "charge")]),
+        ("two-attrs-absent", base3, [(0, "charge"), (1, "hcount")]),
+        ("ring-charge-absent-opposite", ring, [(0, "charge"), (2, "charge")]), ("ring-hcount-absent-adjacent", ring, [(0, "hcount"), (1, "hcount")]),
+        ("star-leaf-hcount-absent", star, [(2, "hcount")]), ("star-two-leaves-charge-absent", star, [(1, "charge"), (4, "charge")]),
+        ("all-absent-on-one", base3, [(1, "element"), (1, "charge"), (1, "aromatic"), (1, "hcount")]),
+    ]
+    out = []
+    for nm, g, drops in spec:
+        h = strip(g, drops)
+        c = _graph_case("missing", h, rng, nalts=3, nothers=0, name="missing/" + nm)
+        # others: the absent attribute filled in with its default (same printed values, another graph for the exact
+        # back-end), and the attribute dropped from ANOTHER node
+        i0, k0 = drops[0]
+        filled = _copy(h)
+        filled["nodes"][i0][1][k0] = {"element": "", "charge": 0, "aromatic": False, "hcount": 0}[k0]
+        moved = strip(g, [((i + 1) % len(g["nodes"]), k) for i, k in drops])
+        # (an absent element and the empty string are printed alike by every back-end: no such pair)
+        c["others"] = [moved] if k0 == "element" else [filled, moved]
+        c["oracle_only"] = True
+        out.append(c)
+    return out
 
 
 def _size_cases(rng, tier):
@@ -1267,6 +1440,99 @@ def _size_cases(rng, tier):
     nodes = [[i + 90, _node("CNO"[i % 3] if i % 7 else "S", 0, False, i % 3)] for i in range(n)]
     edges = [[i + 90, i + 91, {"order": float(1 + (i % 2))}] for i in range(n - 1)]
     out.append(_graph_case("size", {"nodes": nodes, "edges": edges}, rng, nalts=2, nothers=1, name="size/chain24"))
+    return out
+
+
+def _dg(els, arcs, order=1.0, ids=None):
+    ids = ids or list(range(1, len(els) + 1))
+    return {"nodes": [[i, _node(el)] for i, el in zip(ids, els)],
+            "edges": [[a[0], a[1], {"order": (a[2] if len(a) > 2 else order)}] for a in arcs], "directed": True}
+
+
+def _digraph_classes(n, elements=("C", "O"), orders=(1.0,)):
+    """Every isomorphism class of digraphs (no loops, antiparallel arcs allowed) on n nodes over the given elements and
+    arc orders - deduplicated with the oracle's own isomorphism test."""
+    pairs = [(u, v) for u in range(1, n + 1) for v in range(1, n + 1) if u != v]
+    reps = []
+    for els in itertools.combinations_with_replacement(elements, n):
+        seen = []
+        for choice in itertools.product((None,) + tuple(orders), repeat=len(pairs)):
+            g = _dg(els, [(u, v, o) for (u, v), o in zip(pairs, choice) if o is not None])
+            view = _cov(_nx(g))
+            if not any(_iso(view, w) is not None for w in seen):
+                seen.append(view)
+                reps.append(g)
+    return reps
+
+
+def _digraph_cases(rng, tier):
+    """networkx.DiGraph inputs (the class documents that digraphs are preserved): every class with <= 3 nodes, named
+    families where the direction of an arc is the only content (mirror pairs, directed cycles, antiparallel arcs with
+    equal / different attributes, tournaments), seeded random digraphs, whole-family soundness batches."""
+    out = []
+    k = 0
+    for n in (1, 2, 3):
+        for g in _digraph_classes(n):
+            c = _graph_case("digraph", g, rng, nalts=2, nothers=1)
+            c["deep"] = (k % (4 if tier == "quick" else 8) == 0)
+            k += 1
+            out.append(c)
+    for g in _digraph_classes(2, orders=(1.0, 2.0)):
+        out.append(_graph_case("digraph", g, rng, nalts=2, nothers=1))
+    cyc = lambda n: [(i, i % n + 1) for i in range(1, n + 1)]
+    named = [
+        ("push-forward", _dg("NCOC", [(1, 2), (2, 3), (2, 4)])), ("push-backward", _dg("NCOC", [(2, 1), (3, 2), (2, 4)])),
+        ("one-arc", _dg("CC", [(1, 2)])), ("one-arc-CO", _dg("CO", [(1, 2)])), ("one-arc-OC", _dg("CO", [(2, 1)])),
+        ("antiparallel-equal", _dg("CC", [(1, 2), (2, 1)])), ("antiparallel-orders", _dg("CC", [(1, 2, 1.0), (2, 1, 2.0)])),
+        ("antiparallel-CO", _dg("CO", [(2, 1, 1.0), (1, 2, 2.0)])),
+        ("dicycle3", _dg("CCC", cyc(3))), ("dicycle4", _dg("CCCC", cyc(4))), ("dicycle5", _dg("CCCCC", cyc(5))), ("dicycle6", _dg("CCCCCC", cyc(6))),
+        ("bidirected-C4", _dg("CCCC", cyc(4) + [(v, u) for u, v in cyc(4)])),
+        ("bidirected-C4-one-way-missing", _dg("CCCC", cyc(4) + [(v, u) for u, v in cyc(4)][:3])),
+        ("in-star", _dg("CCCC", [(2, 1), (3, 1), (4, 1)])), ("out-star", _dg("CCCC", [(1, 2), (1, 3), (1, 4)])),
+        ("mixed-star", _dg("CCCC", [(1, 2), (3, 1), (1, 4)])),
+        ("label-blind-4", _dg("CCCC", [(1, 2), (1, 4), (2, 3)])),          # the upper triangle alone does not tell its leaves apart
+        ("transitive-T4", _dg("CCCC", [(i, j) for i in range(1, 5) for j in range(i + 1, 5)])),
+        ("rotational-T5", _dg("CCCCC", [(i, (i + d - 1) % 5 + 1) for i in range(1, 6) for d in (1, 2)])),
+        ("2xdicycle3", _dg("CCCCCC", cyc(3) + [(u + 3, v + 3) for u, v in cyc(3)])),
+        ("K22-one-way", _dg("CCOO", [(1, 3), (1, 4), (2, 3), (2, 4)])), ("K22-alternating", _dg("CCOO", [(1, 3), (4, 1), (2, 4), (3, 2)])),
+        ("ids-9-10-11", _dg("CCC", [(10, 9), (9, 11), (11, 10)], ids=[10, 9, 11])),
+    ]
+    g = _dg("CCC", cyc(3))
+    for e, pr in zip(g["edges"], [(2.0, 1.0), (1.0, 2.0), (1.0, 1.0)]):
+        e[2]["order"] = list(pr)
+        e[2]["standard_order"] = pr[0] - pr[1]
+    named.append(("dicycle3-its", g))
+    g = _dg("CC", [(1, 2), (2, 1)])
+    g["edges"][0][2]["order"], g["edges"][1][2]["order"] = [1.0, 2.0], [1.0, 0.0]
+    named.append(("antiparallel-its", g))
+    g = _dg("CCC", [(1, 2), (2, 1), (2, 3)])
+    g["edges"][0][2]["standard_order"] = 0.0
+    named.append(("antiparallel-std-0.0-vs-absent", g))
+    for nm, g in named:
+        out.append(_graph_case("digraph", g, rng, nalts=3, nothers=2, name="digraph/" + nm))
+    for i in range(40 if tier == "quick" else 600):
+        n = rng.randint(2, 6)
+        ids = rng.sample(range(0, 30), n)
+        p = rng.choice([0.15, 0.3, 0.5])
+        arcs = [(u, v, float(rng.choice([1, 1, 2, 1.5]))) for u in ids for v in ids if u != v and rng.random() < p]
+        g = _dg([rng.choice("CCCON") for _ in ids], arcs, ids=ids)
+        if rng.random() < 0.5:
+            for j, (_, a) in enumerate(g["nodes"]):
+                a["hcount"] = rng.choice([0, 0, 1])
+                a["atom_map"] = j + 1
+        if rng.random() < 0.3:
+            for e in g["edges"]:
+                if rng.random() < 0.7:
+                    e[2]["standard_order"] = rng.choice([0.0, 1.0, -0.5])
+        c = _graph_case("digraph", g, rng, nalts=2, nothers=2)
+        c["deep"] = (i % 2 == 0)
+        out.append(c)
+    # whole families: all arc sets with k arcs on three labelled atoms (equal signature => isomorphic as digraphs; nauty: <=>)
+    pairs = [(u, v) for u in (1, 2, 3) for v in (1, 2, 3) if u != v]
+    for els in ("CCO", "CNO", "CCC"):
+        for kk in range(1, 6):
+            gs = [_dg(els, list(arcs)) for arcs in itertools.combinations(pairs, kk)]
+            out.append(dict(kind="batch", sub="dbatch", graphs=gs, distinct_classes=False))
     return out
 
 
@@ -1378,7 +1644,7 @@ def gen_cases(tier, rng):
         gs = [g] + [_reinsert(_renumber(g, rng, "keep"), rng) for _ in range(2)] + [_mutant(g, rng) for _ in range(4)]
         cases.append(dict(kind="batch", sub="batch-random", graphs=gs, distinct_classes=False))
     cases += _rule_cases(rng, 30 if tier == "quick" else 66)
-    cases += _its_cases(rng, tier) + _degenerate_cases(rng) + _size_cases(rng, tier)
+    cases += _its_cases(rng, tier) + _degenerate_cases(rng) + _size_cases(rng, tier) + _digraph_cases(rng, tier) + _missing_attr_cases(rng)
     # the symmetric families are the expensive cases (cube, Petersen: hundreds of leaves and _refine calls each):
     # spread them over the shards instead of putting them into one
     k3 = 0
@@ -1397,7 +1663,9 @@ LEVEL_TEXT = ("Machine-checked proof (Coq) over an executable model of the four 
               "back-ends), signature = function of the graph (all back-ends), equal signatures => isomorphic (all back-ends), exact back-end "
               "invariant under any renumbering / re-ordering / re-orientation, wrappers equal exactly for isomorphic content - all for "
               "every well-formed graph incl. ITS graphs with (before, after) order pairs, no size bound; NautyCanonicalizer.graph_signature exact; the "
-              "reported automorphisms sound and complete.  The model is tied to the Python code on every run by comparing canonical permutation, "
+              "reported automorphisms sound and complete; the same clauses for networkx.DiGraph inputs (direction of every arc covered: "
+              "signature a function of the digraph, equal signatures => isomorphic as digraphs, exact back-end invariant on digraphs).  "
+              "The model is tied to the Python code on every run by comparing canonical permutation, "
               "best label, every _refine call, canonical graphs, serialisation strings, digest equality patterns and wrapper verdicts on "
               "exhaustive small scopes, symmetric families and seeded random graphs.")
 LEVEL_NOTE = ("Trusted: Coq kernel + vm_compute; the hand-written model and the harness encoders; networkx Graph semantics; collision-freeness of "
